@@ -11,8 +11,8 @@ CONSTANTS Kind,       \* "dup" | "status" | "pool"
 VARIABLE st
 MCVLen == [x \in {"s1"} |-> 10]
 MCNames == <<"a", "b", "s/a", "s/t/b">>
-NoLinks == [d \in D |-> <<>>]
-NoInfoSeq(n) == [q \in 1..n |-> NoInfo]
+MCNoLinks == [d \in D |-> <<>>]
+MCNoInfoSeq(n) == [q \in 1..n |-> NoInfo]
 
 (* ---------------------------------------------------------------- dup / list *)
 Contents == IF Small THEN {<<>>, <<"v1">>, <<"s1">>, <<"v1", "v2">>}
